@@ -23,9 +23,15 @@ package dagsync
 //@   at call setLatestSync#1: assert arg1 == h.peerID && arg2 == c
 
 // Close runs the shutdown sequence exactly once.
-//@ spec func subOK(s val) bool = s != nil && s.closing != nil && s.inEvents != nil && s.addEventChan != nil && s.rmEventChan != nil && s.httpPeerstore != nil && s.host != nil && s.ipniSync != nil && s.handlers != nil && all(k, has(s.handlers, k) ==> s.handlers[k] != nil && s.handlers[k].subscriber == s && str(s.handlers[k].peerID) == k) && !closed(s.addEventChan) && !closed(s.rmEventChan) && s.closing != s.inEvents && (closed(s.inEvents) ==> closed(s.closing)) && s.scopedBlockHook != nil && s.scopedBlockHookMutex != nil && (s.receiver != nil ==> s.watchDone != nil && recvOK(s.receiver) && s.receiver.outChan != s.closing && s.receiver.done != s.closing && s.receiver.done != s.inEvents && (s.receiver.cancelWatch != nil ==> s.receiver.watchDone != nil) && (s.receiver.cancelPubsub != nil ==> s.receiver.topic != nil))
+//@ spec func subOK(s val) bool = s != nil && s.closing != nil && s.inEvents != nil && s.addEventChan != nil && s.rmEventChan != nil && s.httpPeerstore != nil && s.host != nil && s.ipniSync != nil && s.ipniSync.clientHost != nil && s.handlers != nil && all(k, has(s.handlers, k) ==> s.handlers[k] != nil && s.handlers[k].subscriber == s && str(s.handlers[k].peerID) == k) && !closed(s.addEventChan) && !closed(s.rmEventChan) && s.closing != s.inEvents && (closed(s.inEvents) ==> closed(s.closing)) && s.scopedBlockHook != nil && s.scopedBlockHookMutex != nil && (s.receiver != nil ==> s.watchDone != nil && recvOK(s.receiver) && s.receiver.outChan != s.closing && s.receiver.done != s.closing && s.receiver.done != s.inEvents && (s.receiver.cancelWatch != nil ==> s.receiver.watchDone != nil) && (s.receiver.cancelPubsub != nil ==> s.receiver.topic != nil))
 
 // No per-publisher mutex is held by the calling thread (API-boundary fact of explicit entry points).
+// A syncer held by the subscriber is an ipnisync client that is ready for use and was made for the
+// publisher of the handler that holds it (C03: its GetHead compares the head's signer with that identity).
+//@ spec func syncerOK(x val) bool = typeis(x, "*ipnisync.Syncer") ==> as(x, "*ipnisync.Syncer").client != nil && as(x, "*ipnisync.Syncer").sync != nil && nonnilelems(as(x, "*ipnisync.Syncer").urls)
+//@ spec func syncerFor(x val, id val) bool = typeis(x, "*ipnisync.Syncer") && as(x, "*ipnisync.Syncer").peerInfo.ID == id
+//@ spec func hOK(h val) bool = h.syncer != nil ==> syncerOK(h.syncer) && syncerFor(h.syncer, h.peerID)
+//@ spec func handlersSyncers(s val) bool = all(k, has(s.handlers, k) ==> hOK(s.handlers[k]))
 //@ spec func handlersFree(s val) bool = all(k, has(s.handlers, k) ==> !held(s.handlers[k].syncMutex) && !held(s.handlers[k].asyncMutex))
 
 //@ func (*Subscriber).Close
@@ -94,10 +100,14 @@ package dagsync
 //@ protects Subscriber.handlersMutex: handlers
 
 // Syncer is implemented by ipnisync.Syncer (whose GetHead contract is proved there).
+// Callers through the interface establish what the ipnisync implementation requires (checked there as
+// refinement of preconditions); for GetHead that includes a non-empty publisher identity.
 //@ iface Syncer.GetHead
 //@   pure
+//@   requires arg1 != nil && syncerOK(recv) && (typeis(recv, "*ipnisync.Syncer") ==> str(as(recv, "*ipnisync.Syncer").peerInfo.ID) != str(""))
 //@ iface Syncer.Sync
 //@   pure
+//@   requires ctx != nil && syncerOK(recv)
 //@ iface Syncer.SameAddrs
 //@   pure
 
@@ -110,7 +120,7 @@ package dagsync
 // handle is used here through its contract (its body is C08/C01): any failure is reported as (0, err).
 //@ func (*handler).handle
 //@   property C04 C08 C01
-//@   requires h != nil && h.subscriber != nil && syncer != nil && !held(h.syncMutex)
+//@   requires h != nil && h.subscriber != nil && syncer != nil && !held(h.syncMutex) && syncerOK(syncer) && ctx != nil
 //@   requires h.subscriber.scopedBlockHook != nil && h.subscriber.scopedBlockHookMutex != nil && !held(h.subscriber.scopedBlockHookMutex)
 //@   modifies mapof(h.subscriber.scopedBlockHook)
 //@   ensures result1 != nil ==> result0 == 0
@@ -145,13 +155,17 @@ package dagsync
 //@   loop 1: invariant origLimit.mode == 1 ==> depthSoFar < origLimit.depth && nextDepth == min(segdl, origLimit.depth - depthSoFar) && origLimit.depth > segdl
 //@   loop 1: invariant origLimit.mode != 1 ==> nextDepth == segdl
 //@   loop 1: invariant depthSoFar <= 4611686018427387904
+//@   loop 1: invariant syncerOK(syncer) && ctx != nil
 //@   loop 1: invariant segSync != nil && segSync.nextSyncCid != nil && held(h.syncMutex) && !held(h.subscriber.scopedBlockHookMutex) && h.subscriber.scopedBlockHook != nil
 
 //@ func (*handler).makeSyncer
 //@   property C01
 //@   requires h != nil && h.subscriber != nil && h.subscriber.httpPeerstore != nil && h.subscriber.host != nil && h.subscriber.ipniSync != nil
-//@   modifies h.syncer
+//@   requires hOK(h) && peerInfo.ID == h.peerID && h.subscriber.ipniSync.clientHost != nil && !held(h.subscriber.ipniSync.clientHostMutex)
+//@   modifies h.syncer, h.subscriber.ipniSync.client, h.subscriber.ipniSync.clientHostMutex, elems(peerInfo.Addrs)
 //@   ensures result2 == nil ==> result0 != nil && (doUpdate ==> result1 != nil)
+//@   ensures result2 == nil ==> syncerOK(result0) && syncerFor(result0, peerInfo.ID) && result0 == h.syncer
+//@   ensures hOK(h)
 //@   ensures result2 != nil ==> result0 == nil
 
 //@ func (*Subscriber).getOrCreateHandler
@@ -160,6 +174,7 @@ package dagsync
 //@   modifies mapof(s.handlers), objects(handler)
 //@   ensures result != nil && result.subscriber == s && result.peerID == peerID
 //@   ensures old(handlersFree(s)) ==> !held(result.syncMutex) && !held(result.asyncMutex) && handlersFree(s)
+//@   ensures old(handlersSyncers(s)) ==> hOK(result) && handlersSyncers(s)
 //@   ensures subOK(s)
 
 //@ func (*Subscriber).GetLatestSync
@@ -204,7 +219,7 @@ package dagsync
 // released on every return.
 //@ func (*Subscriber).SyncAdChain
 //@   property C01 C04 C15 C03
-//@   requires subOK(s) && handlersFree(s) && ctx != nil && !held(s.expSyncMutex) && !held(s.handlersMutex) && !held(s.scopedBlockHookMutex)
+//@   requires subOK(s) && handlersFree(s) && handlersSyncers(s) && ctx != nil && !held(s.expSyncMutex) && !held(s.handlersMutex) && !held(s.scopedBlockHookMutex) && !held(s.ipniSync.clientHostMutex)
 //@   requires !s.expSyncClosed ==> !closed(s.inEvents)
 //@   ghost rlScoped := zero("selector.RecursionLimit")
 //@   ghost rlFirst := zero("selector.RecursionLimit")
@@ -256,7 +271,11 @@ package dagsync
 //@   property C04 C08 C01 C14
 //@   requires h != nil && subOK(h.subscriber) && ctx != nil && !held(h.syncMutex) && !held(h.subscriber.scopedBlockHookMutex) && !closed(h.subscriber.inEvents)
 //@   requires h.subscriber.receiver != nil ==> !held(h.subscriber.receiver.announceMutex)
+//@   requires hOK(h) && !held(h.subscriber.ipniSync.clientHostMutex)
 //@   assumes str(cid.Undef.str) == str("")
+// rely (guaranteed by the only other writer of the slot, the watcher: asserted there): an announcement
+// pending for a handler is one from that handler's publisher
+//@   at call Swap#1: after assume result != nil ==> result.PeerID == h.peerID
 //@   mayblock send:inEvents
 //@   modifies h.pendingMsg, h.syncer, mapof(h.subscriber.scopedBlockHook), h.subscriber.latestSyncHandler, state(h.subscriber.receiver)
 //@   ghost taken := zero("*announce.Announce")
@@ -299,6 +318,7 @@ package dagsync
 //@   requires s.receiver != nil ==> !held(s.receiver.announceMutex)
 //@   requires s.syncSem != nil ==> !closed(s.syncSem)
 //@   requires wg(s.asyncWG) >= 1
+//@   requires hOK(hnd) && !held(s.ipniSync.clientHostMutex)
 //@   mayblock
 //@   at call asyncSyncAdChain#1: assert held(hnd.asyncMutex)
 // the sync starts with a concurrency slot, or (context cancelled) only to be abandoned:
@@ -313,10 +333,14 @@ package dagsync
 //@   property C08 C15
 //@   requires subOK(s) && s.receiver != nil && s.watchDone != nil && !closed(s.watchDone) && !held(s.handlersMutex) && !held(s.receiver.announceMutex)
 //@   requires !closed(s.inEvents) && (s.syncSem != nil ==> !closed(s.syncSem))
+//@   requires handlersSyncers(s) && !held(s.ipniSync.clientHostMutex)
+// guarantee for asyncSyncAdChain's rely: what is put into a handler's pending slot comes from its publisher
+//@   at call Swap#1: assert arg1 != nil && arg1.PeerID == hnd.peerID
 //@   mayblock
 //@   ghost old0 := zero("*announce.Announce")
 //@   loop 1: invariant subOK(s) && s.receiver != nil && !held(s.handlersMutex) && !closed(s.watchDone) && cancel != nil
 //@   loop 1: invariant !closed(s.inEvents) && (s.syncSem != nil ==> !closed(s.syncSem))
+//@   loop 1: invariant handlersSyncers(s) && !held(s.ipniSync.clientHostMutex)
 //@   loop 1: iteration ghost spawned := false
 //@   at call Swap#1: after ghost old0 := result
 //@   loop 1: iteration ensures itercount("go:watch$1") == ite(old0 == nil, 1, 0) && itercount("wg.add:asyncWG") == itercount("go:watch$1")
@@ -333,7 +357,7 @@ package dagsync
 // Entries syncs follow the same shutdown protocol as SyncAdChain (C15) and fail without side effects (C04).
 //@ func (*Subscriber).syncEntries
 //@   property C15 C04 C01
-//@   requires subOK(s) && handlersFree(s) && ctx != nil && !held(s.expSyncMutex) && !held(s.handlersMutex) && !held(s.scopedBlockHookMutex)
+//@   requires subOK(s) && handlersFree(s) && handlersSyncers(s) && ctx != nil && !held(s.expSyncMutex) && !held(s.handlersMutex) && !held(s.scopedBlockHookMutex) && !held(s.ipniSync.clientHostMutex)
 //@   assumes str(cid.Undef.str) == str("")
 //@   at call handle#1: assert arg2 == entCid && arg3 == sel && arg5 == bh && arg6 == segdl && str(arg7.str) == str("")
 //@   ensures-local entCid != cid.Undef && old(s.expSyncClosed) ==> result != nil && count("wg.add:expSyncWG") == 0 && count("call:handle") == 0
@@ -373,14 +397,14 @@ package dagsync
 // One entry block: the depth-0 selector, the general hook, no segmentation.
 //@ func (*Subscriber).SyncOneEntry
 //@   property C01
-//@   requires subOK(s) && handlersFree(s) && ctx != nil && !held(s.expSyncMutex) && !held(s.handlersMutex) && !held(s.scopedBlockHookMutex)
+//@   requires subOK(s) && handlersFree(s) && handlersSyncers(s) && ctx != nil && !held(s.expSyncMutex) && !held(s.handlersMutex) && !held(s.scopedBlockHookMutex) && !held(s.ipniSync.clientHostMutex)
 //@   at call syncEntries#1: assert arg2 == peerInfo && arg3 == entCid && arg4 == s.selectorOne && arg5 == s.generalBlockHook && arg6 == -1
 
 // An entries chain: the per-call hook if given, else the general one; the per-call depth limit if given
 // (a selector built for exactly that limit), else the subscriber's entries selector.
 //@ func (*Subscriber).SyncEntries
 //@   property C01
-//@   requires subOK(s) && handlersFree(s) && ctx != nil && !held(s.expSyncMutex) && !held(s.handlersMutex) && !held(s.scopedBlockHookMutex)
+//@   requires subOK(s) && handlersFree(s) && handlersSyncers(s) && ctx != nil && !held(s.expSyncMutex) && !held(s.handlersMutex) && !held(s.scopedBlockHookMutex) && !held(s.ipniSync.clientHostMutex)
 //@   ghost hook0 := zero("BlockHookFunc")
 //@   ghost rl := zero("selector.RecursionLimit")
 //@   at call getSyncOpts#1: after ghost hook0 := result.blockHook
@@ -394,7 +418,7 @@ package dagsync
 // A HAMT: everything reachable, the per-call hook if given, no segmentation.
 //@ func (*Subscriber).SyncHAMTEntries
 //@   property C01
-//@   requires subOK(s) && handlersFree(s) && ctx != nil && !held(s.expSyncMutex) && !held(s.handlersMutex) && !held(s.scopedBlockHookMutex)
+//@   requires subOK(s) && handlersFree(s) && handlersSyncers(s) && ctx != nil && !held(s.expSyncMutex) && !held(s.handlersMutex) && !held(s.scopedBlockHookMutex) && !held(s.ipniSync.clientHostMutex)
 //@   ghost hook0 := zero("BlockHookFunc")
 //@   at call getSyncOpts#1: after ghost hook0 := result.blockHook
 //@   at call syncEntries#1: assert arg2 == peerInfo && arg3 == entCid && arg4 == s.selectorAll && arg5 == ite(hook0 == nil, s.generalBlockHook, hook0) && arg6 == -1
